@@ -51,3 +51,206 @@ def small_units():
             else ["result == " + ADJ % (('self._KexDH__ca_n_len',) * 3)]
         U.append(Unit(Contract('KexDH.get_ca_size', setup=setup_kexdh, cases=[{'$catype': t}], raises={}, ensures=ens), harness=None))
     return U
+
+
+# ---------------------------------------------------------------------------------------------------- perform_test
+# HostKeyTest.perform_test for ONE probed host-key type (the probe table is a parameter), against an arbitrary
+# server: the socket layer and the KexDH object are contracts returning unconstrained values; the measured sizes hs, cs
+# are unconstrained non-negative integers.  Proved: the rating-table edits follow the bands of the statement for every
+# size, at most one connection and one key-exchange request are made, and the socket is closed on every exit.
+TWO2K = '2048-bit modulus only provides 112-bits of symmetric strength'
+ECC = '224-bit ECC modulus only provides 112-bits of symmetric strength'
+NIST = 'CA key uses elliptic curves that are suspected as being backdoored by the U.S. National Security Agency'
+RSA_FAMILY = ['ssh-rsa', 'rsa-sha2-256', 'rsa-sha2-512']
+
+
+def _noop(ip, st, recv, args, kwargs):
+    return None
+
+
+def _bump(st, key):
+    st.ghost[key] = st.ghost[key] + 1
+
+
+def m_is_connected(ip, st, recv, args, kwargs):
+    return st.ghost['connected']
+
+
+def m_close(ip, st, recv, args, kwargs):
+    st.ghost['connected'] = False
+    return None
+
+
+def m_connect(ip, st, recv, args, kwargs):
+    _bump(st, 'connects')
+    if ip.choose(st, 2) == 1:
+        st.ghost['connected'] = False
+        return fresh('connect_err', 'str')
+    st.ghost['connected'] = True
+    return None
+
+
+def m_get_banner(ip, st, recv, args, kwargs):
+    return (None, None, fresh('banner_err', ('opt', 'str')))
+
+
+def m_read_packet(ip, st, recv, args, kwargs):
+    return (fresh('ptype', 'int'), fresh('payload', 'bytes'))
+
+
+def m_send_init(ip, st, recv, args, kwargs):
+    _bump(st, 'kexreq')
+    st.ghost['kexreq_connected'] = st.ghost['kexreq_connected'] and (st.ghost['connected'] is True)
+    c = ip.choose(st, 2)
+    if c == 1:
+        from pyvc.interp import Raise
+        from pyvc.values import ExcVal
+        raise Raise(ExcVal('KexDHException', ()))
+    return None
+
+
+def m_recv_reply(ip, st, recv, args, kwargs):
+    c = ip.choose(st, 3)
+    if c == 1:
+        from pyvc.interp import Raise
+        from pyvc.values import ExcVal
+        raise Raise(ExcVal('KexDHException', ()))
+    if c == 2:
+        return None
+    return fresh('hostkey_blob', 'bytes')
+
+
+def m_hs(ip, st, recv, args, kwargs):
+    return st.ghost['hs']
+
+
+def m_cs(ip, st, recv, args, kwargs):
+    return st.ghost['cs']
+
+
+def m_catype(ip, st, recv, args, kwargs):
+    return st.ghost['catype']
+
+
+def m_set_host_key(ip, st, recv, args, kwargs):
+    st.ghost['recorded'] = st.new_list(list(st.get(st.ghost['recorded']).items) + [(args[0], args[2], args[3], args[4])])
+    return None
+
+
+def setup_perform(ip, st, fr, case):
+    t, cert, catype = case['$type'], case['$cert'], case['$catype']
+    n = case.get('$n', 3)
+    names = RSA_FAMILY if t in RSA_FAMILY else [t]
+    keydb = {}
+    for nm in names:
+        inner = [st.new_symlist(fresh('e_%d' % i, ('list', ('opt', 'str'))).t, ('opt', 'str')) for i in range(n)]
+        keydb[nm] = st.new_list(inner, ('list', ('opt', 'str')))
+        for i in range(n):
+            fr['g_o%d_%d' % (names.index(nm), i)] = Sym(st.get(inner[i]).sym, ('list', ('opt', 'str')))
+        if nm == t:
+            for i in range(n):
+                fr['g_old%d' % i] = Sym(st.get(inner[i]).sym, ('list', ('opt', 'str')))
+    st.ghost['db'] = st.new_dict({'key': st.new_dict(keydb)})
+    st.ghost['entry'] = keydb[t]
+    st.ghost['entries'] = st.new_list([keydb[nm] for nm in names])
+    hs, cs = fresh('hs', 'int'), fresh('cs', 'int')
+    st.assume(hs.t >= 0)
+    st.assume(cs.t >= 0)
+    if not cert:
+        st.assume(cs.t == 0)
+    st.ghost.update({'hs': hs, 'cs': cs, 'catype': catype, 'connected': fresh('connected0', 'bool'), 'connects': 0, 'kexreq': 0,
+                     'kexreq_connected': True, 'recorded': st.new_list([])})
+    fr['out'] = st.new_obj('<out>', {'debug': fresh('debug', 'bool')})
+    fr['s'] = st.new_obj('<sock>', {})
+    party = st.new_obj('<party>', {'encryption': None, 'mac': None, 'compression': None, 'languages': None})
+    fr['server_kex'] = st.new_obj('<kex>', {'key_algorithms': st.new_list([t, 'ssh-unrelated'], 'str'), 'server': party})
+    fr['kex_str'] = 'curve25519-sha256'
+    fr['kex_group'] = st.new_obj('<kexgroup>', {})
+    fr['host_key_types'] = st.new_dict({t: st.new_dict({'cert': cert, 'variable_key_len': True})})
+    fr['g_hs'], fr['g_cs'], fr['g_n'] = hs, cs, n
+    mm = ip.method_models
+    for name in ('d', 'v', 'fail', 'warn', 'info'):
+        mm[('<out>', name)] = _noop
+    mm[('<sock>', 'is_connected')] = m_is_connected
+    mm[('<sock>', 'close')] = m_close
+    mm[('<sock>', 'connect')] = m_connect
+    mm[('<sock>', 'get_banner')] = m_get_banner
+    mm[('<sock>', 'send_kexinit')] = _noop
+    mm[('<sock>', 'read_packet')] = m_read_packet
+    mm[('<kexgroup>', 'send_init')] = m_send_init
+    mm[('<kexgroup>', 'recv_reply')] = m_recv_reply
+    mm[('<kexgroup>', 'get_hostkey_size')] = m_hs
+    mm[('<kexgroup>', 'get_ca_size')] = m_cs
+    mm[('<kexgroup>', 'get_ca_type')] = m_catype
+    mm[('<kex>', 'set_host_key')] = m_set_host_key
+    return {}
+
+
+def perform_stubs():
+    return [Contract('SSH2_KexDB.get_db', mode='contract', result=lambda ip, st: st.ghost['db'], modifies=[], ensures=[],
+                     note='the per-thread rating table: arbitrary entries of the documented shape for the probed names'),
+            Contract('SSH2_Kex.parse', mode='contract', result=lambda ip, st: None, modifies=[], ensures=[], may_raise={'Exception': 'True'},
+                     note='the re-sent KEXINIT of the probe connection: returns or raises anything (the result is not used by perform_test)'),
+            Contract('traceback:format_exc', mode='contract', result='str', modifies=[], ensures=[])]
+
+
+def band_clauses(t, cert, catype, n):
+    """expected edits of the entry's failure list E[1] and warning list E[2] as a function of the measured sizes"""
+    ecc_host = t.startswith('ssh-ed25519') or t.startswith('ssh-ed448') or t.startswith('ecdsa-sha2-nistp')
+    ecc_ca = catype.startswith('ssh-ed25519') or catype.startswith('ecdsa-sha2-nistp')
+    hlo, hhi, hwarn = (224, 256, ECC) if ecc_host else (2048, 3072, TWO2K)
+    clo, chi, cwarn = (224, 256, ECC) if ecc_ca else (2048, 3072, TWO2K)
+    P = "ghost('probed')"
+    old1, old2 = ('g_old1' if n > 1 else '[]'), ('g_old2' if n > 2 else '[]')
+    E1, E2 = "ghost('entry')[1]", "ghost('entry')[2]"
+    if not cert:
+        if t == 'ssh-dss':
+            fails = "[]"
+            warns = "[]"
+        else:
+            fails = "(['using small %%d-bit modulus' %% g_hs] if (g_hs > 0 and g_hs < %d) else [])" % hlo
+            warns = "([%r] if (g_hs >= %d and g_hs < %d) else [])" % (hwarn, hlo, hhi)
+    else:
+        # (a certificate is rated when either size was measured)
+        m = "(g_hs > 0 or g_cs > 0)"
+        f_h = "(['using small %%d-bit hostkey modulus' %% g_hs] if (%s and g_hs < %d) else [])" % (m, hlo)
+        f_c = "(['using small %%d-bit CA key modulus' %% g_cs] if (g_cs > 0 and g_cs < %d) else [])" % clo
+        f_n = "([%r] if %s else [])" % (NIST, m) if catype.startswith('ecdsa-sha2-nistp') else "[]"
+        fails = "%s + %s + %s" % (f_h, f_c, f_n)
+        w_h = "([%r] if (%s and g_hs >= %d and g_hs < %d) else [])" % (hwarn, m, hlo, hhi)
+        w_c = "([%r] if (g_cs >= %d and g_cs < %d and not (%r == %r and g_hs >= %d and g_hs < %d)) else [])" % (cwarn, clo, chi, cwarn, hwarn, hlo, hhi)
+        warns = "%s + %s" % (w_h, w_c)
+    return fails, warns
+
+
+def perform_units():
+    U = []
+    cases = [(t, False, '') for t in ('ssh-rsa', 'rsa-sha2-256', 'rsa-sha2-512', 'ssh-ed25519', 'ssh-ed448', 'ssh-dss')]
+    for t in ('ssh-rsa-cert-v01@openssh.com', 'rsa-sha2-512-cert-v01@openssh.com', 'ssh-ed25519-cert-v01@openssh.com'):
+        for ca in ('ssh-rsa', 'ssh-ed25519', 'ecdsa-sha2-nistp256', ''):
+            cases.append((t, True, ca))
+    for t, cert, ca in cases:
+        for n in ((1, 3) if t == 'ssh-rsa' else (3,)):
+            fails, warns = band_clauses(t, cert, ca, n)
+            old1, old2 = ('g_old1' if n > 1 else '[]'), ('g_old2' if n > 2 else '[]')
+            measured = "len(ghost('recorded')) > 0"
+            ens = [
+                # footprint (C19): at most one connection and one key-exchange request, sent on an open connection, which is closed afterwards on every path
+                "ghost('connects') <= 1 and ghost('kexreq') <= 1 and ghost('kexreq_connected')",
+                # (a connection on which the re-sent KEXINIT could not be parsed is left to the caller, which closes it; no request was sent on it)
+                "implies(ghost('kexreq') >= 1, ghost('connected') == False)",
+                # what is recorded (C11): the measured sizes, for the whole RSA family when a plain RSA key was probed
+                "(ghost('recorded')[0] == (%r, g_hs, %r, g_cs)) if %s else True" % (t, ca, measured),
+                "len(ghost('recorded')) == (0 if not %s else %d)" % (measured, 4 if (t in RSA_FAMILY and not cert) else 1),
+                # rating-table edits: exactly the band notes, appended
+                "(ghost('entry')[1] == %s + %s) if %s else True" % (old1, fails, measured),
+                "(ghost('entry')[2] == %s + %s) if %s else True" % (old2, warns, measured),
+                "True if %s else (len(ghost('entry')) == g_n or (ghost('entry')[1] == %s and ghost('entry')[2] == %s))" % (measured, old1, old2),
+            ]
+            if t in RSA_FAMILY:
+                for j in range(3):
+                    ens.append("(ghost('entries')[%d][1] == %s + %s and ghost('entries')[%d][2] == %s + %s) if %s else True"
+                               % (j, 'g_o%d_1' % j if n > 1 else '[]', fails, j, 'g_o%d_2' % j if n > 2 else '[]', warns, measured))
+            U.append(Unit(Contract('HostKeyTest.perform_test', setup=setup_perform, raises={},
+                                   cases=[{'$type': t, '$cert': cert, '$catype': ca, '$n': n}], ensures=ens), harness=None))
+    return U
